@@ -4,6 +4,7 @@
 import Rl2tp.Proofs.Consumed
 import Rl2tp.Proofs.Control
 import Rl2tp.Proofs.DataMsg
+import Rl2tp.Props.C03
 namespace Rl2tp.C08
 open Spec
 
@@ -197,8 +198,80 @@ theorem back_to_back (o : Opts) (b1 b2 : Bytes) (m : Msg) (L : Nat)
   exact this
 
 /-! non-vacuity -/
+/-! ### a whole buffer of messages packed back to back -/
+
+/-- what a receiver does with a buffer: decode a message, go on behind it, until the buffer is empty or something is
+    not accepted.  Returns the messages and what was left; `fuel` bounds the count. -/
+def decodeMany (o : Opts) : Nat → Bytes → List Msg × Bytes
+  | 0, b => ([], b)
+  | fuel + 1, b =>
+    if b = [] then ([], [])
+    else
+      match (decode o : M Bytes (List DErr) Msg) b with
+      | .ok m r =>
+        let (ms, q) := decodeMany o fuel r
+        (m :: ms, q)
+      | _ => ([], b)
+
+/-- **k messages**: if each octet string `bᵢ`, alone, decodes to `mᵢ` (a control message, or a data message that
+    carries a Length), then the concatenation `b₁ ++ … ++ bₖ` decodes, message after message, to exactly `m₁ … mₖ`
+    and nothing is left — for every `k`, every mix of control and data messages, every option set. -/
+theorem decode_many (o : Opts) (ps : List (Bytes × Msg)) (fuel : Nat) (hfuel : ps.length < fuel)
+    (h : ∀ p ∈ ps, (decode o : M Bytes (List DErr) Msg) p.1 = .ok p.2 [] ∧ p.2.declared.isSome = true) :
+    decodeMany o fuel (ps.map (·.1)).flatten = (ps.map (·.2), []) := by
+  induction ps generalizing fuel with
+  | nil =>
+    cases fuel with
+    | zero => simp at hfuel
+    | succ n => simp [decodeMany]
+  | cons p ps ih =>
+    cases fuel with
+    | zero => simp at hfuel
+    | succ n =>
+      obtain ⟨hd, hdecl⟩ := h p (by simp)
+      obtain ⟨L, hL⟩ := Option.isSome_iff_exists.mp hdecl
+      have hne : p.1 ≠ [] := by
+        intro he
+        rw [he, decode_short o (by simp)] at hd
+        cases hd
+      have hb := back_to_back o p.1 (ps.map (·.1)).flatten p.2 L hd hL
+      simp only [List.map_cons, List.flatten_cons, decodeMany]
+      rw [if_neg (by simp [hne]), hb]
+      simp only []
+      rw [ih n (by simpa using hfuel) (fun q hq => h q (by simp [hq]))]
+
+/-- the encoder's side of it: control messages (encodable AVPs, a Message Type AVP first, at most 65535 octets each)
+    written one after another into one buffer are read back, in order, each with its Length set to its encoded size -/
+theorem encode_many_decode_many (o : Opts) (cs : List Control) (fuel : Nat) (hfuel : cs.length < fuel)
+    (h : ∀ c ∈ cs, (∀ a ∈ c.avps, a.Encodable) ∧ firstIsMessageType c.avps = true ∧
+      12 + (avpsImage c.avps).length ≤ 65535) :
+    decodeMany o fuel (cs.map controlImage).flatten =
+      (cs.map fun c => .control { c with length := UInt16.ofNat (controlImage c).length }, []) := by
+  have := decode_many o (cs.map fun c => (controlImage c, Msg.control { c with length := UInt16.ofNat (controlImage c).length }))
+    fuel (by simpa using hfuel) (by
+      intro p hp
+      obtain ⟨c, hc, rfl⟩ := List.mem_map.mp hp
+      obtain ⟨he, hf, hl⟩ := h c hc
+      obtain ⟨img, himg, hdec⟩ := C03.control_roundtrip c o he hf hl
+      have himg' : img = controlImage c := by
+        have := writeControl_eq [] c (fun a ha => (he a ha).2) hl
+        simp only [encode, writeMsg, List.nil_append] at himg this
+        rw [this] at himg
+        cases himg; rfl
+      subst himg'
+      exact ⟨hdec, rfl⟩)
+  simp only [List.map_map] at this
+  exact this
+
 example : WellDelimited [1, 8, 0, 0, 0, 0, 0, 6] := ⟨1, 8, 0, 0, 0, 0, [0, 6], rfl, by decide⟩
 example : (decode Opts.strict : M Bytes _ Msg) ([0x13, 0x20, 0, 12, 0, 1, 0, 2, 0, 3, 0, 4] ++ [0xFF, 0xFF]) =
     .ok (.control { length := 12, tunnelId := 1, sessionId := 2, ns := 3, nr := 4, avps := [] }) [0xFF, 0xFF] := by decide
+
+/-- two messages and a data message with a Length in one buffer: three messages out, nothing left -/
+example : decodeMany Opts.strict 10
+      ([0x13, 0x20, 0, 12, 0, 1, 0, 2, 0, 3, 0, 4] ++ [0x02, 0x20, 0, 9, 0, 7, 0, 9, 0xAA] ++
+        [0x13, 0x20, 0, 20, 0, 1, 0, 2, 0, 3, 0, 4, 1, 8, 0, 0, 0, 0, 0, 6]) =
+    ([.control ⟨12, 1, 2, 3, 4, []⟩, .data ⟨false, some 9, 7, 9, none, none, [0xAA]⟩,
+      .control ⟨20, 1, 2, 3, 4, [.messageType .hello]⟩], []) := by decide
 
 end Rl2tp.C08
